@@ -1,7 +1,7 @@
 """Table of sub-checks per property: Go test name, case counts per tier, shards, native fuzz targets."""
 
-def sub(test, quick, thorough, shards=8, **kw):
-    d = {"test": test, "quick": quick, "thorough": thorough, "shards": {"quick": 1, "thorough": shards}}
+def sub(test, quick, thorough, shards=8, qshards=1, **kw):
+    d = {"test": test, "quick": quick, "thorough": thorough, "shards": {"quick": qshards, "thorough": shards}}
     d.update(kw)
     return d
 
@@ -38,4 +38,12 @@ CHECKS = {
             "subs": [sub("TestC10_dispatch", 40000, 1600000, 16)]},
     "C11": {"pkg": "cli", "assumptions": CLI_ASSUME + ["which of several missing required options is named is not asserted here (C20)"],
             "subs": [sub("TestC11_required", 30000, 1200000, 16)]},
+    "C12": {"pkg": "cli", "assumptions": CLI_ASSUME + ["for environment text that is not valid for the type only the value (= default) is asserted; Called is not fixed by the statement there", "optional-value option given without a value while the variable is set is not judged"],
+            "subs": [sub("TestC12_precedence", 60000, 2400000, 16), sub("TestC12_exhaustive", 1, 1, 1, rapid=False)]},
+    "C20": {"pkg": "cli", "assumptions": CLI_ASSUME + ["hidden state is sampled by repetition: 12 in-process executions on fresh definitions per case (every Go map gets its own hash seed and every range a random start)"],
+            "subs": [sub("TestC20_repeat", 4000, 200000, 16, qshards=4)]},
+    "C19": {"pkg": "cli", "env": {"VERIF_TRACK_CURRENT": "1"}, "hang_sub": "robust",
+            "assumptions": CLI_ASSUME + ["int range tokens with a span above 10^4 are outside the stated domain and discarded (counted)", "'no hang' is decided up to a 10 s bound per call (normal cost: microseconds); a process time-out is confirmed by an isolated replay before it is reported"],
+            "subs": [sub("TestC19_robust", 30000, 1600000, 16, qshards=2), sub("TestC19_seeds", 1, 1, 1, rapid=False)],
+            "fuzz": [{"target": "FuzzC19_bytes", "sub": "robust", "time": 120}, {"target": "FuzzC19_robust", "sub": "robust", "time": 120}]},
 }
